@@ -1039,14 +1039,20 @@ pub fn run<T: Send + 'static>(
             break;
         }
         let c = chooser(&en, &ex);
-        assert!(c < en.len(), "chooser returned out-of-range index {c} of {}", en.len());
         if record_choices {
             choices.push(ChoicePoint {
                 enabled: en.clone(),
                 chosen: c,
             });
         }
-        ex.step(en[c]);
+        if c >= en.len() {
+            // a spurious poll of party (c - en.len()): legal for any executor
+            let p = c - en.len();
+            assert!(p < ex.n && ex.outcomes[p].is_none(), "chooser returned out-of-range index {c} of {}", en.len());
+            ex.step(Action::Run(p as u8));
+        } else {
+            ex.step(en[c]);
+        }
     }
     // hang = unfinished parties; kill them so threads end
     for p in ex.unfinished() {
